@@ -341,6 +341,11 @@ http_sconn_error(http_sconn *sc, nng_http_status err)
 		return;
 	}
 
+	if (strcmp(nni_http_get_method(sc->conn), "HEAD") == 0) {
+		// A response to HEAD never carries a body (the headers,
+		// including content-length, stay as for GET).
+		nni_http_prune_body(sc->conn);
+	}
 	if (sc->close) {
 		nni_http_set_static_header(
 		    sc->conn, &sc->close_header, "Connection", "close");
@@ -681,12 +686,14 @@ http_sconn_cbdone(void *arg)
 		if (sc->close) {
 			nni_http_set_header(sc->conn, "Connection", "close");
 		}
-		if ((strcmp(method, "HEAD") == 0) && status >= 200 &&
-		    status <= 299) {
+		if (((strcmp(method, "HEAD") != 0) || status < 200 ||
+		        status > 299) &&
+		    nni_http_is_error(sc->conn)) {
+			(void) nni_http_server_error(s, sc->conn);
+		}
+		if (strcmp(method, "HEAD") == 0) {
 			// prune off data, preserving content-length header.
 			nni_http_prune_body(sc->conn);
-		} else if (nni_http_is_error(sc->conn)) {
-			(void) nni_http_server_error(s, sc->conn);
 		}
 		nni_http_write_res(sc->conn, &sc->txaio);
 	} else if (sc->close) {
